@@ -70,23 +70,51 @@ func (cp *FreeList) flushBlock(blk types.Block) (types.Work, error) {
 
 // Flush writes outstanding work and buffered data to the freelist file.
 func (cp *FreeList) Flush() (types.Work, error) {
+	write, _ := cp.BeginFlush()
+	return write()
+}
+
+// BeginFlush takes the entries that are in the pool now out of the pool, and
+// returns a function that writes them to the freelist file and a function that
+// puts them back into the pool instead. Exactly one of the two must be called.
+// Entries that are put after BeginFlush returns are left for the next flush.
+//
+// This allows the store to fix the set of entries to flush before it flushes
+// the index, so that every entry written to the freelist file is for a
+// location that the flushed index no longer refers to.
+func (cp *FreeList) BeginFlush() (write func() (types.Work, error), abort func()) {
 	cp.flushLock.Lock()
-	defer cp.flushLock.Unlock()
 
 	cp.poolLk.Lock()
-	if len(cp.blockPool) == 0 {
-		cp.poolLk.Unlock()
-		return 0, nil
-	}
 	blocks := cp.blockPool
-	cp.blockPool = make([]types.Block, 0, blockPoolSize)
-	cp.outstandingWork = 0
+	if len(blocks) != 0 {
+		cp.blockPool = make([]types.Block, 0, blockPoolSize)
+		cp.outstandingWork = 0
+	}
 	cp.poolLk.Unlock()
 
-	// The pool lock is released allowing Put to write to nextPool. The
+	// The pool lock is released allowing Put to write to the pool. The
 	// flushLock is still held, preventing concurrent flushes from changing the
 	// pool or accessing writer.
 
+	write = func() (types.Work, error) {
+		defer cp.flushLock.Unlock()
+		return cp.writeBlocks(blocks)
+	}
+	abort = func() {
+		defer cp.flushLock.Unlock()
+		if len(blocks) == 0 {
+			return
+		}
+		cp.poolLk.Lock()
+		cp.blockPool = append(blocks, cp.blockPool...)
+		cp.outstandingWork += types.Work(len(blocks) * (types.SizeBytesLen + types.OffBytesLen))
+		cp.poolLk.Unlock()
+	}
+	return write, abort
+}
+
+func (cp *FreeList) writeBlocks(blocks []types.Block) (types.Work, error) {
 	if len(blocks) == 0 {
 		return 0, nil
 	}
